@@ -359,6 +359,7 @@ type c05Pick struct {
 	root  string
 	segs  []string
 	obj   bool // value may be an object (must not be evaluated in a template as it is)
+	str   bool // value is a string (or any) whenever it is not an object
 	class string
 	sub   string
 }
@@ -912,6 +913,10 @@ func (g *c05Gen) pick(s c05Slot) (*c05Pick, c05Verdict, int, string) {
 		if p == nil {
 			continue
 		}
+		switch p.class {
+		case "steps-id", "steps-out", "needs-result", "needs-output", "secrets", "jobs-output", "matrix-nested":
+			p.str = !p.obj
+		}
 		v, bad, why := g.sc.Resolve(p.root, p.segs, s.job, s.at)
 		if v == c05Skip {
 			continue
@@ -961,58 +966,17 @@ func (g *c05Gen) emit(prefix string, s c05Slot) {
 	case c05Never:
 		rf.Verdict = "never:" + why
 	}
-	// text before / after the reference token inside the scalar
+	// text before / after the reference token inside the scalar: a random operator / function tree
+	// (c05_expr.go) with the reference at one operand position, inside ${{ }} or as a bare condition
 	var pre, post string
 	sp := r.Pick([]string{" ", " ", "", "  "})
 	open, cls := "${{"+sp, sp+"}}"
-	wrapObj := []string{"toJSON(%s)", "format('{0}', %s)", "toJSON(%s) != '{}'", "!%s"}
-	wrapScalar := []string{"%s", "%s", "%s == 'x'", "%s || 'd'", "format('{0}-{1}', %s, 1)", "toJSON(%s)", "!%s", "%s != ''"}
-	wrap := func() (string, string) {
-		var w string
-		if p.obj {
-			w = r.Pick(wrapObj)
-		} else {
-			w = r.Pick(wrapScalar)
-		}
-		i := strings.Index(w, "%s")
-		return w[:i], w[i+2:]
-	}
-	switch {
-	case s.fromJSON:
-		pre, post = open+"fromJSON(", ")"+cls
-	case s.kind == "bool" || s.kind == "string":
-		ws := []string{"format('{0}', %s)", "toJSON(%s)"}
-		if s.kind == "bool" {
-			ws = []string{"!%s", "toJSON(%s) != '{}'"}
-			if !p.obj {
-				ws = []string{"!%s", "%s == 'x'", "%s != ''"}
-			}
-		}
-		w := r.Pick(ws)
-		i := strings.Index(w, "%s")
-		pre, post = open+w[:i], w[i+2:]+cls
-	case s.isIf:
-		bare := []string{"%s", "success() && %s", "!%s"}
-		if p.obj {
-			bare = append(bare, "toJSON(%s) != '{}'")
-		} else {
-			bare = append(bare, "%s == 'x'", "%s != ''")
-		}
-		if r.Chance(6, 10) {
-			w := r.Pick(bare)
-			i := strings.Index(w, "%s")
-			pre, post = w[:i], w[i+2:]
-		} else {
-			a, z := wrap()
-			if p.obj && a == "" {
-				a, z = "toJSON(", ")"
-			}
-			pre, post = open+a, z+cls
-		}
-	default:
-		a, z := wrap()
-		pre, post = open+a, z+cls
-		if !s.exact {
+	templated := !s.isIf || s.fromJSON || s.kind != "" || r.Chance(4, 10)
+	ePre, ePost, path := g.tree(text, p, s, templated)
+	rf.OpPath = path
+	if templated {
+		pre, post = open+ePre, ePost+cls
+		if !s.isIf && !s.exact && !s.fromJSON && s.kind == "" {
 			pre = r.Pick([]string{"", "echo ", "v-", "pre "}) + pre
 			post = post + r.Pick([]string{"", "", " done", "-x"})
 			if r.Chance(12, 100) {
@@ -1020,6 +984,8 @@ func (g *c05Gen) emit(prefix string, s c05Slot) {
 				pre = r.Pick([]string{"${{ 'k' }}-", "${{ 1 }} ", "${{ format('{0}', 'a') }}_"}) + pre
 			}
 		}
+	} else {
+		pre, post = ePre, ePost
 	}
 	full := pre + text + post
 	style := r.Intn(4)
@@ -1032,6 +998,9 @@ func (g *c05Gen) emit(prefix string, s c05Slot) {
 		if !ok || strings.Contains(full, ": ") || strings.Contains(full, " #") {
 			style = 1
 		}
+	}
+	if style == 1 && strings.Contains(full, `"`) {
+		style = 2
 	}
 	b.W(prefix)
 	rf.Line = b.Pos().Line
@@ -1070,8 +1039,13 @@ func (g *c05Gen) emit(prefix string, s c05Slot) {
 			b.W(ind + "echo end\n")
 		}
 	}
-	if s.isIf && !strings.HasPrefix(pre, "${{") {
+	if s.isIf && !templated {
 		rf.Style += "/bare-if"
+	}
+	rf.emPre, rf.emText, rf.emPost = ePre, text, ePost
+	if style == 2 {
+		q := func(x string) string { return strings.ReplaceAll(x, "'", "''") }
+		rf.emPre, rf.emText, rf.emPost = q(ePre), q(text), q(ePost)
 	}
 	g.refs = append(g.refs, rf)
 }
